@@ -1955,12 +1955,15 @@ class mulgrid(object):
         layer_mapping = self.layer_mapping(geo)
         for dest in geo.block_name_list:
             destcol, destlayer = geo.column_name(dest), geo.layer_name(dest)
-            sourcecol, sourcelayer = col_mapping[destcol], layer_mapping[destlayer]
             if destlayer == geo.layerlist[0].name:
                 sourcelayer = self.layerlist[0].name # atmosphere layer
                 if self.atmosphere_type == 0:
                     sourcecol = self.atmosphere_column_name
+                elif self.atmosphere_type == geo.atmosphere_type == 1:
+                    sourcecol = col_mapping[destcol]
+                else: continue # no corresponding atmosphere block in self
             else:
+                sourcecol, sourcelayer = col_mapping[destcol], layer_mapping[destlayer]
                 # if source block is above surface in column, use
                 # first layer below surface instead:
                 if self.column[sourcecol].surface <= self.layer[sourcelayer].bottom:
